@@ -49,7 +49,7 @@ CLAIMED = {
   'text': 'Partial. Verus proves on the real bodies: FeelIterator::run enumerates exactly the cartesian product of its (non-empty) domains in odometer order - the k-th handler call has the position vector of '
           'mixed-radix rank k and the loop exits after exactly the product of the domain sizes calls, for all isize range bounds, ascending and descending (ghost trace, inductive invariant); '
           'add_range/add_list build well-formed states; the operator closures and/or/=/!=/</<=/>/>=/between/in-range equal the value tables of the standard (unit compare); '
-          'Scope::get_entry/search_deep resolve names innermost-first. Known finding (replayed each run): an empty list domain beside a non-empty one still iterates.',
+          'Scope::get_entry/search_deep resolve names innermost-first; filter, for / some / every bodies, context literals and function invocations leave the scope stack as they found it (so the rest of the expression sees the caller\'s bindings). BOUNDED: = / != / list contains over a 41-value alphabet. Known finding (replayed each run): an empty list domain beside a non-empty one still iterates.',
   'design_ref': 'DESIGN.md section 5 (C01)',
   'note': 'Trusted: Verus/Z3, vstd, stubs for FeelNumber and chrono; closure lifting R4 and RefCell erasure R8. Not decided: closure wiring (build_evaluator), arithmetic closures (pending), '
           'function definition/invocation, filters, paths, for/some/every result assembly, determinism.',
@@ -58,14 +58,16 @@ CLAIMED = {
   'text': 'Partial. Verus proves on the real bodies, for all lists, strings and positions: sublist (2 and 3 arguments), substring (characters, 1-based, negative from the end), insert before, remove, reverse, '
           'count, index of (sound and complete), list contains, append, all and not return exactly the specified value on their domain and null outside it, with no overflow for extreme positions/lengths; '
           'and for 34 built-ins that the positional wrapper handles exactly the legal arities and that the named wrapper passes the standard\'s parameter names in the standard\'s order to the same core '
-          'function (named invocation = positional invocation; contracts generated from a table of DMN signatures). Known finding replayed each run: any().',
+          'function (named invocation = positional invocation; contracts generated from a table of DMN signatures). BOUNDED: all / any over every list of length 0..4 from {true, false, null, 1, "a"} in list, named and variadic form. Known finding replayed each run: any().',
   'design_ref': 'DESIGN.md section 5 (C08)',
   'note': 'Trusted: Verus/Z3, vstd; FeelNumber predicates/conversions as stated stubs; String char iteration stubs; core functions uninterpreted in the dispatch unit. Not decided: regex/conversion/aggregate functions, sort, flatten/union/distinct values.',
  },
  'C05': {
   'text': 'Partial. The conjunction of the automatic Verus obligations (arithmetic overflow/underflow, division by zero, index and slice bounds, Option::unwrap, and termination where a decreases clause is given) '
           'of every function under contract in all units: the FEEL lexer layout/literal functions (with termination), FeelIterator::run for all isize bounds, the list/string position built-ins for extreme positions and lengths, '
-          'calendar and duration arithmetic, type relations. Plus a BOUNDED stand-in (labelled bounded, not counted as proved) for the byte-indexed string search built-ins.',
+          'calendar and duration arithmetic, type relations; FeelIterator::run terminates (decreases: positions of the odometer left). Plus BOUNDED stand-ins (labelled bounded, not counted as proved): the byte-indexed string search built-ins; '
+          'every built-in name over argument grids (no panic); 7 699 generated expressions that must answer within 10 s without panic (iteration over lists / ascending / descending / empty ranges, named zones at every half hour around their daylight-saving transitions, '
+          'maximal durations, time offsets up to the i32 limits, extreme dates and constructor arguments).',
   'design_ref': 'DESIGN.md section 5 (C05)',
   'note': 'Trusted: Verus/Z3, vstd and the stated std specs. Not decided: the LALR parse driver and reduce actions, read_next_token, consume_name, evaluator recursion depth, regex/chrono panics, '
           'built-ins not under contract, format!-built messages. abs() at MIN and nanoseconds >= 2^32 are excluded by stated preconditions.',
@@ -76,7 +78,8 @@ CLAIMED = {
           'consume_unicode yields exactly the denoted scalar value for every 4-hex, 6-hex and surrogate-pair escape (UTF-8 assembly proved with bit-vector lemmas against RFC 3629) and errors otherwise; '
           'consume_string returns exactly the code points the literal denotes (all escape forms) and accepts every well-formed literal. Unit parser: the real driver loop Parser::parse does in every state exactly what the packed tables say under the Bison skeleton\'s semantics (shift / reduce / default / error and the goto after a reduction), '
           'table content abstract, its range facts re-checked from lalr.rs on every run. Precedence / associativity (the CONTENT of the LALR tables) only BOUNDED: '
-          'every ordered pair and triple of 15 operators, fully vs minimally parenthesised renderings through the real parser, minimal parentheses computed from feel.y\'s precedence declarations.',
+          'every ordered pair and triple of 15 operators (all three operand positions of between), fully vs minimally parenthesised renderings through the real parser, minimal parentheses computed from feel.y\'s precedence declarations; '
+          'and 16 separators (white space of every kind, block and line comments with and without white space around them) in every gap of 62 token sequences covering every keyword and bracket give the tree of the single-space layout (read_input\'s contract states that the keyword look-ahead is blank from a comment start on).',
   'design_ref': 'DESIGN.md section 5 (C06)',
   'note': 'Trusted: Verus/Z3; String::from_utf8 = RFC 3629 decoding (stub); char classification std specs. One assume (A-LR: stack depth at a reduction). Not decided beyond the bounded pairs / triples: that the tables are the LALR(1) tables of feel.y; reduce actions (which node is built); keyword / number tokenisation.',
  },
@@ -84,7 +87,7 @@ CLAIMED = {
   'text': 'Partial. Verus proves on the real bodies of decision_table.rs, for all tables (any number of rules/outputs, any match pattern): a rule matches exactly when every input-entry evaluator yields true; '
           'the 12 hit-policy functions and their dispatch return what the policy prescribes over exactly the matching rules (UNIQUE, ANY, FIRST, PRIORITY, RULE ORDER, OUTPUT ORDER, COLLECT list/count/sum/min/max), '
           'the default on no match, contexts keyed by component names for compound outputs; the output-value priority comparator is the lexicographic rank order; and (unit compare) the unary tests '
-          '< <= > >= and not(...) used by input entries accept exactly the values they should.',
+          '< <= > >= and not(...) used by input entries accept exactly the values they should; the marker of a text table and the hitPolicy / aggregation attributes of the XML form denote the policy and aggregator of DMN Table 39.',
   'design_ref': 'DESIGN.md section 5 (C03)',
   'note': 'Trusted: Verus/Z3; evaluators are opaque (dyn Fn); sort_by sorts by the (verified) comparator (assumed: result is a permutation); filter/collect and position stubs; FEEL aggregates uninterpreted. '
           'Not decided: parsing of the table from XML/text, interval/list unary tests inside input entries beyond those under contract.',
@@ -106,10 +109,11 @@ CLAIMED = {
  'C18': {
   'text': 'Partial. Proof: Verus proves on the real handler bodies that clear/add/replace/remove/deploy perform exactly the workspace operation the endpoint names on the model decoded from the request (replace substitutes the stored model), '
           'report the workspace operation\'s failure as an error, and leave the workspace unchanged on every malformed-request path (missing content, invalid base64, invalid UTF-8, unparsable model); together with the workspace representation '
-          'invariant of C17. BOUNDED (not proofs, real code through the replay driver): the /evaluate body {"data": jsonify(value)} is a JSON document that decodes to the value, and value -> TCK DTO -> JSON (serde_json) -> DTO -> value is the identity, '
+          'invariant of C17. Unit dto: Verus proves on the real bodies of server/src/dto.rs (the TryFrom impls as free functions) that every decoder answers exactly the value its DTO denotes (an error iff some part is unreadable) and that both encoders build a DTO denoting the value, '
+          'so decode(encode(v)) = v for every transportable value at every nesting depth (termination of the recursion included), relative to the assumed text round trip of scalars and names. BOUNDED (not proofs, real code through the replay driver): the /evaluate body {"data": jsonify(value)} is a JSON document that decodes to the value, and value -> TCK DTO -> JSON (serde_json) -> DTO -> value is the identity, '
           'on a grid of 671 values of every TCK kind nested to depth 2.',
   'design_ref': 'DESIGN.md section 5 (C18)',
-  'note': 'Not decided: dto.rs / jsonify beyond the bounded grids (string code), actix routing, body limits, lock poisoning, survival after malformed requests, values without a JSON rendering (functions, ranges, Infinity / NaN).',
+  'note': 'Assumed in unit dto: Display / try_from_xsd_* and Name::to_string / parse_longest_name round-trip (exercised by the bounded stand-in). Not decided: jsonify beyond the bounded grid (string code), actix routing, body limits, lock poisoning, survival after malformed requests, values without a JSON rendering (functions, ranges, Infinity / NaN).',
  },
  'C13': {
   'text': 'Partial (scope half). Verus proves on the real bodies that every evaluator closure / function that pushes a temporary context returns with the caller\'s stack of contexts exactly as it found it '
